@@ -101,7 +101,7 @@ def compare(rec, b, text, entry=None, pos=0, fullparse=True, monitor='E1', sigpr
             cd = case_dict(b, text, entry, pos, fullparse, **(extra_case or {}))
         return cd
 
-    if 'value' in monitors and exp != obs:
+    if 'value' in monitors and not observe.same_outcome(exp, obs):
         rec.violation('%s%s:%s->%s' % (sigprefix, monitor, observe.outcome_class(exp),
                                        observe.outcome_class(obs)),
                       monitor + ' reference model vs recorded outcome', case(), exp, obs)
